@@ -212,9 +212,11 @@ pub fn reset() {
     NEXT_OBJ.with(|s| s.set(0));
     NEXT_CHAN.with(|s| s.set(0));
     BOUNDARIES.with(|s| s.set(0));
-    OBJS.with(|s| s.borrow_mut().clear());
-    CHANS.with(|s| s.borrow_mut().clear());
-    VIOLATIONS.with(|s| s.borrow_mut().clear());
+    // give the tables' memory back as well: how far a table keyed by addresses has grown depends
+    // on the addresses, and a harness that measures process memory must not see that
+    OBJS.with(|s| *s.borrow_mut() = HashMap::default());
+    CHANS.with(|s| *s.borrow_mut() = HashMap::default());
+    VIOLATIONS.with(|s| *s.borrow_mut() = Vec::new());
 }
 
 pub fn steps() -> u64 {
@@ -338,7 +340,7 @@ pub(crate) fn freed_info(addr: usize) -> Option<FreedInfo> {
 }
 
 pub(crate) fn take_quarantine() -> Vec<usize> {
-    FREED.with(|s| s.borrow_mut().drain().map(|(k, _)| k).collect())
+    FREED.with(|s| std::mem::take(&mut *s.borrow_mut()).into_keys().collect())
 }
 
 pub(crate) fn record_violation(msg: String) {
